@@ -8,7 +8,8 @@ RULE = _base.SPACE_TEXT + (
     "crash-point quantifier: a parent that ends by success-with-forever-"
     "nested, by a critical sibling, or by timeout at every integer instant "
     "relative to the nested run's phases (main loop dur 2-3, its own "
-    "cancellations with cancel_delay, its shutdown with sd 1-3), depth <=3. "
+    "cancellations with cancel_delay, its shutdown with sd 1-3), depth <=3; "
+    "the same ends for the second run of a tree already run once. "
     "oracle: at the exit event of every scheduler no job inside it (any "
     "depth) is between body entry and exit, no handler between sd_begin and "
     "sd_end, none starts later; when run() returned every task the factory "
